@@ -2,7 +2,12 @@
 
 package storage
 
-import "fmt"
+import (
+	"context"
+	"fmt"
+
+	uuid "github.com/satori/go.uuid"
+)
 
 // VerifSnapshotRestoreAll (export shim for the C12 harness in package
 // services): every partition of every catalogued dataset is snapshotted with
@@ -32,6 +37,54 @@ func VerifSnapshotRestoreAll(dm *DatasetManager) (int, error) {
 			}
 			n++
 		}
+	}
+	return n, nil
+}
+
+// VerifRemoveReplicas (export shim for the C12 harness): the catalogue change
+// the allocator proposes when a node leaves the cluster - remove nodeId from
+// every partition of every dataset -, proposed and committed through the real
+// catalogue group. With replication factor 1 the partitions are left without
+// any replica.
+func VerifRemoveReplicas(ctx context.Context, dm *DatasetManager, nodeId uint64) error {
+	type pair struct{ ds, p uuid.UUID }
+	var todo []pair
+	dm.datasetsMu.RLock()
+	for _, ds := range dm.datasets {
+		for _, p := range ds.partitions {
+			todo = append(todo, pair{ds.id, p.id})
+		}
+	}
+	dm.datasetsMu.RUnlock()
+	for _, t := range todo {
+		if err := dm.removePartitionNode(ctx, t.ds, t.p, nodeId); err != nil {
+			return err
+		}
+	}
+	return nil
+}
+
+// VerifCompactPartitions (export shim for the crash harness in package anndb):
+// every partition group loaded on this node compacts its log into a local
+// snapshot now (what the ready loop does on its own every so many entries).
+// Returns the number of groups compacted.
+func VerifCompactPartitions(dm *DatasetManager) (int, error) {
+	dm.datasetsMu.RLock()
+	var groups []*partition
+	for _, ds := range dm.datasets {
+		for _, p := range ds.partitions {
+			if p.raft != nil {
+				groups = append(groups, p)
+			}
+		}
+	}
+	dm.datasetsMu.RUnlock()
+	n := 0
+	for _, p := range groups {
+		if err := p.raft.VerifTrySnapshot(p.raft.VerifApplied(), 0); err != nil {
+			return n, err
+		}
+		n++
 	}
 	return n, nil
 }
